@@ -317,7 +317,7 @@ class BldBatch:
             if rc == 0:
                 break
             bad = {}
-            for m in re.finditer(r"e_(\d+)\.go:\d+:\d+: ([^\n]*)", out):
+            for m in re.finditer(r"e_(\d+)\.go:\d+(?::\d+)?: ([^\n]*)", out):
                 bad.setdefault(int(m.group(1)), m.group(2))
             if not bad:
                 raise RuntimeError("stage-2 build failed outside the expressions:\n" + out[-3000:])
